@@ -478,6 +478,14 @@ def run(ctx):
     for us in rich:
         for r in (req2 if req2 is not None else req1):
             cases.append({'kind': 'hd', 'wt': 'segwit', 'seed': seed, 'utxos': us, 'req': r})
+    if q:
+        # the pairs (fee argument class x way of naming the inputs) of the 2-deviation menu that the quick tier keeps:
+        # a fee priority word or an explicit fee together with explicit inputs
+        for us in rich[:3]:
+            for fee in ('low', 'high', 3000):
+                for m in EXPLICIT:
+                    cases.append({'kind': 'hd', 'wt': 'segwit', 'seed': seed, 'utxos': us,
+                                  'req': dict(DEFAULT, fee=fee, method=m)})
     # (b) every other configuration: rich sets x 1-deviation requests
     for kind, wt in configs[1:]:
         for us in rich[:3] if q else rich:
